@@ -341,6 +341,25 @@ func pathDepth(v ssa.Value, d int) string {
 		if fr, ok := getterField(x); ok {
 			return pathDepth(fr.Base, d+1) + "." + fr.Field
 		}
+		// while a region binding is active: the result of a private helper with exactly one return (and one result)
+		// reads as the value it returns, with the helper's parameters bound to this call's arguments
+		if PathEnv != nil && Active != nil {
+			if h := x.Common().StaticCallee(); h != nil && h.Signature.Results().Len() == 1 && Active.PrivateHelper(h) {
+				if rets := Returns(h); len(rets) == 1 && len(rets[0].Results) == 1 {
+					bound := true
+					for i, prm := range h.Params {
+						if i < len(x.Common().Args) {
+							if cur, ok := PathEnv[prm]; !ok || cur != x.Common().Args[i] {
+								bound = false
+							}
+						}
+					}
+					if bound {
+						return pathDepth(rets[0].Results[0], d+1)
+					}
+				}
+			}
+		}
 		n := CalleeName(x.Common())
 		if pureCallees[n] {
 			var as []string
